@@ -245,4 +245,8 @@ def run(ctx):
         run.instance(R8, {"fn": "owner::tx_lock_outputs", "obligation": "lock_tx_context only on the edge `context.late_lock_args is None`", "guard edges": len(none_edges)}, held=held)
         if not held:
             run.finding(Finding(R8, tlo.id, "tx_lock_outputs reserves for a context whose late-lock arguments are still pending: the callers that lock before every finalize (command line send, init_send_tx with send_args) give a late-locked send a second reservation step (an input-less TxSent entry, then a second entry or a refused finalize)", site=tlo.loc()))
+    R9 = "C03.R9"
+    run.rule(R9, "a cancelled send is not finalized by a late reply: cancel_tx leaves the signing context in the store, the only thing between a late Standard2 reply and a second live spend of the released inputs is that update_stored_tx selects the slate's TxSent entry, and nothing else, for the sender", floor=2)
+    from .shared import flow_tied_entry
+    flow_tied_entry(ctx, R9)
     run.not_decided += ["exclusivity as a statement about all interleaved histories (R1-R5 are the structural necessary conditions)", "finalize replay: covered by C02.R2 (context deleted => second finalize fails)"]
